@@ -689,3 +689,12 @@ mod tests {
         );
     }
 }
+
+#[cfg(clap_verif)]
+pub(crate) fn verif_escape(kind: &str, s: &str) -> Option<String> {
+    match kind {
+        "zsh_help" => Some(escape_help(s)),
+        "zsh_value" => Some(escape_value(s)),
+        _ => None,
+    }
+}
